@@ -382,7 +382,7 @@ func init() {
 		deviants[a+"/ds_read_b64"] = &Deviant{What: "runDSREADB64 does not add the instruction offset to the address",
 			M: &isaspec.MemOp{Kind: "dsread", Bytes: 8, IgnoreOffset: true}, Causes: map[string]string{"dst": "instruction-offset-ignored"}}
 	}
-	for _, n := range []string{"flat_load_ubyte", "flat_load_sbyte", "flat_load_ushort"} {
+	for _, n := range []string{"flat_load_ubyte", "flat_load_sbyte", "flat_load_ushort", "global_load_ubyte", "global_load_sbyte", "global_load_ushort"} {
 		deviants["gcn3/"+n] = &Deviant{What: "alu_flat.go reads 4 bytes from memory for a sub-dword load: an access that ends at the end of a mapping faults",
 			PanicCause: "reads-4-bytes-faults-at-end-of-mapping",
 			PanicIf: func(t *task, pre *isaspec.State) bool {
@@ -390,7 +390,13 @@ func init() {
 					if pre.EXEC>>uint(l)&1 == 0 {
 						continue
 					}
-					a := pre.ReadLane(t.in.Ops[1], 64, l) + uint64(t.in.Mod("offset", 0))
+					// the address the ISA prescribes (OFF mode: VGPR pair; SADDR mode:
+					// SGPR base + zero-extended 32-bit VGPR), plus the signed immediate
+					a := pre.ReadLane(t.in.Ops[1], 64, l)
+					if len(t.in.Ops) == 3 && t.in.Ops[2].Kind == isaspec.KSGPR {
+						a = pre.ReadScalar(t.in.Ops[2], 64) + uint64(uint32(pre.ReadLane(t.in.Ops[1], 32, l)))
+					}
+					a += uint64(t.in.Mod("offset", 0))
 					if _, ok := pre.Mem.Read(a, 4); !ok {
 						return true
 					}
